@@ -41,7 +41,15 @@ def group_outputs(model, subset, inputs, results, x, names):
     elif len(subs) != 1:
         raise Mismatch("imputed-set", f"inner samples of one step impute different sets {subs}")
     s = next(iter(subs)) if subset is None else frozenset(subset)
-    outs = [model.one(xi) for xi in inputs]
+    for xi in inputs:
+        for k in x:
+            if k not in s and not (k in xi and xi[k] == x[k]):
+                raise Mismatch("outside-subset-changed", f"model input differs from x on {k!r}, which was not to be imputed")
+        if set(xi.keys()) != set(x.keys()):
+            raise Mismatch("input-keys", f"model input has keys {sorted(map(repr, xi))}, the instance {sorted(map(repr, x))}")
+    # the INTENDED evaluation: x with exactly the imputed features replaced (x's own key order); a positional model
+    # therefore exposes implementations that permute or re-assemble the input
+    outs = [model.one({k: (xi[k] if k in s else x[k]) for k in x}) for xi in inputs]
     if results is not None:
         if len(results) == len(outs):
             pass
